@@ -273,6 +273,7 @@ func Props() []*harness.Prop {
 		{ID: "C16", Gen: c16Gen, Exec: c16Exec},
 		{ID: "C17", Gen: c17Gen, Exec: c17Exec},
 		{ID: "C18", Gen: c18Gen, Exec: c18Exec},
+		{ID: "C19", Gen: c19Gen, Exec: c19Exec},
 		{ID: "C20", Gen: c20Gen, Exec: c20Exec},
 		{ID: "C21", Gen: c21Gen, Exec: c21Exec},
 		{ID: "C10", Gen: c10Gen, Exec: c10Exec},
